@@ -131,11 +131,49 @@ def generate_answer(with_session: bool, with_proxy: bool, via_app: bool, kind: i
     return hx.check(inputs, obs, exp, "generated answer: local Origin-Host/Realm, Session-Id and Proxy-Info copied, header mirrored, R/E/T cleared")
 
 
+def to_answer_sequence(flags1: int, flags2: int, order: bool) -> bool:
+    """
+    pre: 0 <= flags1 <= 255 and 0 <= flags2 <= 255
+    post: _
+    """
+    hx.begin()
+    names = P["classes"]
+    seq = list(names) if not order else list(reversed(names))
+    inputs = (flags1, flags2, order)
+    try:
+        got = []
+        for nm, fl in zip(seq, (flags1, flags2)):
+            cls = CLASSES[nm]
+            req = cls(MessageHeader(1, 0, fl, getattr(cls, "code", 0), 4, 5, 6))
+            pbit = req.header.is_proxyable
+            ans = req.to_answer()
+            paired = _paired_answer(cls)
+            if cls.__name__.endswith("Request") and paired is not None and paired is not cls:
+                okc = type(ans) is paired
+            else:
+                okc = type(ans) is cls or (paired is not None and type(ans) is paired)
+            got.append((okc, ans.header.is_proxyable == pbit, ans.header.is_request, ans.header.command_code == req.header.command_code))
+    except Exception as e:
+        return hx.fail(inputs, "raised " + type(e).__name__)
+    return hx.check(inputs, got, [(True, True, False, True)] * len(seq), "answer class / P bit must not depend on which other class of the same command was answered before")
+
+
 def specs(tier, seed, carve):
     out = []
     for name in sorted(CLASSES):
         out.append(dict(id="to_answer/" + name.replace("diameter.message.", ""), fn="to_answer", params={"cls": name}, timeout=60,
                         bound="all header values (8-bit version/flags, 24-bit code, 32-bit ids) for class " + name))
+    bycode = {}
+    for name, cls in CLASSES.items():
+        if getattr(cls, "code", 0) and cls.__name__.endswith("Request"):
+            base = REG.get(cls.code)
+            if base is not None and base is not cls:
+                bname = base.__module__ + "." + base.__name__
+                if bname in CLASSES:
+                    bycode[cls.code] = [bname, name]
+    for code, pair in sorted(bycode.items()):
+        out.append(dict(id="to_answer_sequence/%d" % code, fn="to_answer_sequence", params={"classes": pair}, timeout=120,
+                        bound="command %d: the typed base class (as produced by a plain decode) and the typed request answered one after the other in one process, both orders, all flag octets" % code))
     out.append(dict(id="generate_answer", fn="generate_answer", params={}, timeout=600,
                     bound="Node._generate_answer and Application.generate_answer on a typed application request, a base-protocol request and an untyped request; Session-Id / Proxy-Info presence symbolic; all 256 flag octets; ids from the pool"))
     return out
